@@ -1,6 +1,7 @@
 ------------------------------ MODULE BuildOrder ------------------------------
 (***************************************************************************)
-(* Separate compilation orders (C14): for a dependency DAG and an arbitrary  *)
+(* Separate compilation orders (C14): for EVERY dependency DAG over four     *)
+(* packages and an arbitrary                                                  *)
 (* order of `goml build` invocations (topological or not), which builds      *)
 (* succeed and whether the final link can succeed.  A package can be built   *)
 (* only when the interface of every package it imports already exists;       *)
@@ -9,12 +10,16 @@
 EXTENDS Integers, Sequences, FiniteSets, TLC, Json, SequencesExt
 
 Pk == {"A", "B", "C", "Main"}
-Shapes == {"chain", "fanin", "diamond", "vee"}
-DepsOf(shape) ==
-  CASE shape = "chain" -> [p \in Pk |-> CASE p = "Main" -> {"C"} [] p = "C" -> {"B"} [] p = "B" -> {"A"} [] OTHER -> {}]
-    [] shape = "fanin" -> [p \in Pk |-> IF p = "Main" THEN {"A", "B", "C"} ELSE {}]
-    [] shape = "diamond" -> [p \in Pk |-> CASE p = "Main" -> {"B", "C"} [] p = "B" -> {"A"} [] p = "C" -> {"A"} [] OTHER -> {}]
-    [] shape = "vee" -> [p \in Pk |-> CASE p = "Main" -> {"A", "C"} [] p = "C" -> {"A", "B"} [] OTHER -> {}]   \* A imported directly and through C
+Lib == Pk \ {"Main"}
+\* every dependency DAG over the four packages: libraries import libraries without a cycle, Main imports libraries, and every
+\* package is reachable from Main (the named shapes chain, fan-in, diamond, vee of earlier rounds are four of them; the `tee`
+\* Main -> {A, B, C}, C -> B is the smallest one in which a direct import of Main is also imported by a later direct import)
+Ranks == {r \in [Lib -> 1..3] : \A a, b \in Lib : a # b => r[a] # r[b]}
+Acyclic(d) == \E r \in Ranks : \A p \in Lib : \A q \in d[p] : r[q] < r[p]
+Reach1(d, S) == S \cup UNION {d[p] : p \in S}
+Reachable(d) == Reach1(d, Reach1(d, Reach1(d, d["Main"])))
+Shapes == {d \in [Pk -> SUBSET Lib] : Acyclic(d) /\ Reachable(d) = Lib}
+DepsOf(shape) == shape
 
 VARIABLES shape, order, i, built, log
 vars == <<shape, order, i, built, log>>
@@ -39,6 +44,6 @@ Topological == \A a, b \in 1..Len(order) : order[a] \in DepsOf(shape)[order[b]] 
 TopologicalIffAllBuilt == Done => (Topological <=> built = Pk)
 \* what is built never depends on anything but the set of earlier successful builds (prefix monotonicity)
 Monotone == \A k \in DOMAIN log : log[k].ok => DepsOf(shape)[log[k].p] \subseteq {log[j].p : j \in {j \in 1..(k - 1) : log[j].ok}}
-Emit == Done => PrintT(<<"ORDER", ToJson([shape |-> shape, order |-> order, log |-> log, linkable |-> (built = Pk),
+Emit == Done => PrintT(<<"ORDER", ToJson([order |-> order, log |-> log, linkable |-> (built = Pk),
                                            deps |-> DepsOf(shape)])>>)
 =============================================================================
